@@ -22,6 +22,7 @@ RULE = ("raw-peer command histories: all sequences of length <= 3 (quick) / 4 (t
         "first command.")
 ASSUMPTIONS = ["MemoryUserManager (the shipped user manager)", "authentication model = harness/ftpmodel.py USER/PASS rules"]
 REQUIRED_MONITORS = ["unauthenticated_command", "identity_probe", "backend_untouched"]
+ANCHOR_FUNCTIONS = ['server.py:Server.user', 'server.py:Server.pass_', 'server.py:ConnectionConditions.__call__.<locals>.wrapper']
 EXHAUSTIVE = {"quick": True, "thorough": True}
 
 USERS_A = {None: None, "alice": "secret", "bob": None, "carol": "pw2"}
